@@ -195,8 +195,19 @@ pub fn run(out: &RunOut, p: &str, tol: u128) -> MonOut {
             // inherit whatever first-seen time is still on storage
             let mut fs_write_failed: Option<usize> = None;
             let mut rolled_back = false;
+            // the first-seen time as the library stored it in this attempt (microseconds), and whether
+            // a commit followed: which of its clock readings the library uses, and when it records the
+            // plan, is its business - the stored value must be a reading of this attempt
+            let mut fs_set: Option<(usize, i64)> = None;
+            let mut fs_committed = false;
+            let mut wall_reads: Vec<(usize, i128)> = vec![];
             for i in c.start..c.end {
                 match &h[i].kind {
+                    Kind::Disk { op: DiskOp::Set(DiskVal::I(v)), key, ok: true, .. } if key == "update_first_seen_time" => {
+                        fs_set = Some((i, *v));
+                        fs_committed = false;
+                    }
+                    Kind::Disk { op: DiskOp::Commit, ok: true, .. } if fs_set.is_some() => fs_committed = true,
                     Kind::Disk { op: DiskOp::Set(_), key, ok: false, .. } if key == "update_first_seen_time" => fs_write_failed = Some(i),
                     Kind::Disk { op: DiskOp::Remove, key, ok: true, .. } if key == "install_plan_id" && fs_write_failed.is_some() => rolled_back = true,
                     Kind::Installer(InstallerRec::CreatePlan { result: Ok(id), response, offered: off, .. }) => {
@@ -209,7 +220,10 @@ pub fn run(out: &RunOut, p: &str, tol: u128) -> MonOut {
                         }
                     }
                     Kind::Policy(PolicyRec::CanStart { answer, .. }) => approved = *answer == UpdateDecisionRec::Ok,
+                    Kind::ClockRead { which, wall, .. } if (which == "wall" || which == "both") && !approved => wall_reads.push((i, *wall)),
+                    Kind::ClockRead { which, wall, .. } if which == "both" && approved => wall_reads.push((i, *wall)),
                     Kind::ClockRead { which, wall, .. } if which == "wall" && approved => {
+                        wall_reads.push((i, *wall));
                         if start_wall_read.is_none() {
                             start_wall_read = Some(*wall);
                         } else if done.is_some() && finish_wall_read.is_none() {
@@ -230,9 +244,20 @@ pub fn run(out: &RunOut, p: &str, tol: u128) -> MonOut {
             // first-seen model: a new plan's record is durable once the install was started (the
             // commit precedes it); an attempt cut before that leaves the previous record in place
             first_seen_from_storage = false;
+            let mut recorded = perform;
+            if let Some((si, v)) = fs_set {
+                m.count("R1.first_seen_records_written");
+                let us = |w: i128| -> i128 { if w >= 0 { w / 1000 } else { -((-w) / 1000) } };
+                match wall_reads.iter().rev().find(|(j, w)| *j < si && us(*w) == v as i128) {
+                    Some((_, w)) => start_wall_read = Some(*w),
+                    None => m.viol(p, "R1", format!("L{}@{}", c.life, si), format!("the first-seen time written for plan {plan} ({v} us) is not a wall-clock reading taken in this attempt")),
+                }
+                recorded = fs_committed;
+            }
             if let Some(sw) = start_wall_read {
                 let same = matches!(&first_seen, Some((id, _, _)) if *id == plan);
                 first_seen_from_storage = same;
+                let perform = recorded;
                 if !same && perform {
                     first_seen = Some((plan.clone(), sw, true));
                 }
